@@ -279,6 +279,24 @@ def run_job(job):
                                 V("%s.%s does not change when the draw that feeds it (draw %d) changes" % (op, k, i), "value %s stays; it is not taken from the tape" % v0[k].hex())
                     else:
                         stats["unattributed_draws"] += 1
+                # RNG fault injection: if the caller's RNG fails at draw i, the operation must not complete with a value it
+                # did not obtain from the RNG (the RNG's own panic / an error is the expected outcome)
+                for i in idxs[:8]:
+                    s.rng("t", tseed, b"")
+                    s.cmd("rng_fail", id="t", at=i + 1)
+                    rf = {"setup_new": lambda: s.cmd("setup_new", rng="t", out="T.S"),
+                          "creg_start": lambda: s.cmd("creg_start", rng="t", pw=ctx["pw"], out_state="T.cs", out_msg="T.rq"),
+                          "creg_finish": lambda: s.cmd("creg_finish", rng="t", state="B.cs", pw=ctx["pw"], resp="B.rr", out="T.up"),
+                          "clogin_start": lambda: s.cmd("clogin_start", rng="t", pw=ctx["pw"], out_state="T.cl", out_msg="T.cq"),
+                          "slogin_start": lambda: s.cmd("slogin_start", rng="t", setup="B.S", file="B.file", req="B.cq", cred=ctx["cred"], out_state="T.sl", out_msg="T.cr"),
+                          "slogin_start_fake": lambda: s.cmd("slogin_start", rng="t", setup="B.S", file=None, req="B.cq", cred=ctx["cred"], out_state="T.sl", out_msg="T.cr")}[op]()
+                    evals += 1
+                    stats["rng_faults"] = stats.get("rng_faults", 0) + 1
+                    if rf.ok:
+                        V("%s completed although the RNG failed at its draw %d (a 'random' value was not obtained from the RNG)" % (op, i + 1), "outputs %s" % str({k: rf.get(k) for k in ("msg", "ser")})[:200])
+                    elif rf.get("panic") and "okv-rng-failure" not in rf["panic"].get("msg", ""):
+                        V("%s panicked on an RNG failure with its own panic" % op, str(rf["panic"]))
+                    # the RNG handle was consumed by the panic; it is re-created at the next iteration
                 if len(samples) < 2 and op in ("clogin_start", "slogin_start_fake"):
                     samples.append({"suite": su, "operation": op, "draw_sizes": [len(x) for x in draws][:8], "attribution": attr, "variants_run": len(idxs)})
     stats["suites"] = {su: stats["sensitivity_variants"]}
